@@ -8,6 +8,7 @@ CONSTANTS
   Forge64 = {"resign_stranger"}
   Forge22 = {"to1d_resign_stranger"}
   Forge32 = {"resign_stranger"}
+  Served = {"DI", "TO0", "TO1", "TO2"}
   MaxReq = 14
   WithMutants = FALSE
   Mutants = FALSE
